@@ -136,14 +136,35 @@ def switchpoint_roundtrip(kind):
     check("{:02d}:{:02d}".format(*divmod(tod, 60)) == tod_txt, "the time of day prints as it was given")
 
 
-@harness("C17", cases=[(n,) for n in (1, 40, 41, 42, 82, 83, 100)])
-def fragmenting_is_lossless(n):
-    """Cutting the compressed blob into 82-character pieces loses nothing: the pieces join back to
-    the blob, each is at most 41 bytes, only the last may be shorter."""
-    blob = sym_str("blob", 2 * n, "HEX")
-    frags = [blob[i : i + 82] for i in range(0, len(blob), 82)]  # the expression used by full_sched_to_fragz
-    check("".join(frags) == blob, "the fragments join back to the blob")
-    check(all(len(f) <= 82 for f in frags) and all(len(f) == 82 for f in frags[:-1]), "each fragment is at most 41 bytes; only the last may be shorter")
+def decompress_stub(data, *args, **kwargs):
+    """zlib.decompress by contract (A12): gives back what was compressed (ghost: the packed bytes)."""
+    return ghost("raw_schedule")[0]
+
+
+@harness("C17", cases=[(days, per_day) for days in (1, 2) for per_day in (1, 2)], stubs={S.zlib.decompress: decompress_stub})
+def decoded_schedule_is_the_one_packed(days, per_day):
+    """The real decode loop of fragz_to_full_sched (20-byte records -> day grouping -> time-of-day text
+    -> setpoint) on the bytes _struct_pack produced for a schedule of `days` days x `per_day`
+    switchpoints gives back exactly that schedule (zlib by contract).  Bounded in the number of
+    days / switchpoints unrolled (stated); setpoints, times and the zone are symbolic."""
+    z = sym_int("zone", 0, 15)
+    full = {"zone_idx": f"{z:02X}", "schedule": []}
+    raw = []
+    for d in range(days):
+        sps = []
+        for i in range(per_day):
+            slot = sym_int(f"slot_{d}_{i}", 0, 287)
+            k = sym_int(f"centi_{d}_{i}", 500, 3500)
+            h, m = slot // 12, (slot % 12) * 5
+            sps.append({"time_of_day": f"{h:02d}:{m:02d}", "heat_setpoint": k / 100})
+        day = {"day_of_week": d, "switchpoints": sps}
+        full["schedule"].append(day)
+        for sp in sps:
+            raw.extend(S._struct_pack(full, day, sp))
+    ghost("raw_schedule").append(bytearray(raw))
+    o = outcome(S.fragz_to_full_sched, ["00"])
+    check(o.ok, "the packed schedule decodes")
+    check(o.value == full, "fragz_to_full_sched gives back the schedule that was packed (zone, days, times, setpoints)")
 
 
 @harness("C17", cases=[(n,) for n in (1, 20, 41)])
@@ -151,7 +172,8 @@ def fragment_command_decodes_back(n):
     """Command.set_schedule_fragment for any zone, fragment number/count and fragment of up to 41
     bytes: a W|0404 frame of at most 48 payload bytes that the schema accepts and that
     parser_0404 decodes to the same (frag_number, total_frags, fragment)."""
-    z = sym_int("zone", 0, 15)
+    zk = sym_choice("zone_kind", ["zone", "HW", "FA", "0xFA"])
+    z = sym_int("zone", 0, 15) if zk == "zone" else {"HW": "HW", "FA": "FA", "0xFA": 0xFA}[zk]
     cnt = sym_int("cnt", 1, 9)
     num = sym_int("num", 1, cnt)
     frag = sym_str("frag", 2 * n, "HEX")
@@ -209,3 +231,50 @@ def kf_313f(inp):
     """Known-finding class: 313F (date-time) messages are kept although expired, on purpose
     ('usu. expired, useful 4 back-back restarts')."""
     return inp["code"] == "313F"
+
+
+from pyvc.harness import native  # noqa: E402
+
+
+@native("C17")
+def fragments_fit_frames(seed, n):
+    """Bounded: real full_sched_to_fragz on a deterministic family of valid schedules (searched until
+    compressed blobs whose length is an exact multiple of 41 bytes are among them): every
+    fragment is 1..41 bytes, the fragments join to the blob that decodes back to the
+    schedule, and every W|0404 built from them is accepted by the library's own decoder."""
+    import logging
+    import random
+    logging.disable(logging.CRITICAL)
+    rng = random.Random(seed)
+    fails, evals, boundary = [], 0, 0
+    try:
+        for i in range(max(200, n)):
+            sched = [{"day_of_week": d, "switchpoints": [
+                {"time_of_day": f"{(6 + 2 * j + (i + d) % 3) % 24:02d}:{(5 * ((i + j) % 12)):02d}", "heat_setpoint": (500 + (37 * i + 11 * j + 3 * d) % 3001) / 100}
+                for j in range(1 + (i + d) % 4)]} for d in range(7)]
+            for d in sched:
+                d["switchpoints"].sort(key=lambda x: x["time_of_day"])
+            full = {"zone_idx": f"{i % 12:02X}", "schedule": sched}
+            frags = S.full_sched_to_fragz(full)
+            evals += 1
+            blob = "".join(frags)
+            if len(blob) % 82 == 0:
+                boundary += 1
+            ok = all(2 <= len(f) <= 82 and len(f) % 2 == 0 for f in frags) and S.fragz_to_full_sched(frags) == full
+            why = "fragment sizes / decode"
+            if ok:
+                for num, f in enumerate(frags, 1):
+                    try:
+                        cmd = Command.set_schedule_fragment("01:145038", full["zone_idx"], num, len(frags), f)
+                        m = Message(Packet.from_port(dt(2023, 11, 30), "000 " + str(cmd)))
+                        ok = ok and m.payload["fragment"] == f and m.payload["total_frags"] == len(frags)
+                    except Exception as e:  # noqa: BLE001
+                        ok, why = False, f"{type(e).__name__}: {e}"
+            if not ok:
+                fails.append({"label": "every fragment fits a frame the decoder accepts and the fragments decode back to the schedule",
+                              "witness": {"seed": seed, "schedule_index": i, "fragment_lengths": [len(f) // 2 for f in frags], "why": why}})
+                if len(fails) > 3:
+                    break
+    finally:
+        logging.disable(logging.NOTSET)
+    return {"evaluations": evals, "failures": fails, "boundary_blobs": boundary}
